@@ -38,7 +38,13 @@ NAME = "Inst._x._tcp.local."
 TYPE_ = "_x._tcp.local."
 NAME_SPELLINGS = ["Inst._x._tcp.local.", "inst._x._tcp.local.", "INST._X._TCP.LOCAL."]
 HOSTS = ["h1.local.", "h2.local."]
-HOST_SPELLINGS = {"h1.local.": ["h1.local.", "H1.Local."], "h2.local.": ["h2.local.", "H2.LOCAL."]}
+HOST_SPELLINGS = {"h1.local.": ["h1.local.", "H1.Local."], "h2.local.": ["h2.local.", "H2.LOCAL."],
+                  # a self-hosted instance: the SRV names the instance name itself (what `ServiceInfo(server=None)` announces)
+                  NAME: NAME_SPELLINGS}
+
+
+def pick_host(rng):
+    return NAME if rng.random() < 0.12 else rng.choice(HOSTS)
 V4 = ["0a000001", "0a000002", "0a000003", "c0a80101"]
 V6 = ["fe80000000000000000000000000000" + d for d in "1234"]
 
@@ -293,16 +299,24 @@ def run_scenario(sc):
         try:
             forced = {0: None, 1: DNSQuestionType.QU, 2: DNSQuestionType.QM}[sc.get("forced", 0)]
             obs["t0"] = sim.loop.ms
+            probe = AsyncServiceInfo(TYPE_, sc.get("name", NAME), server=sc["server"]) if sc.get("server") else AsyncServiceInfo(TYPE_, sc.get("name", NAME))
+            obs["lfc"] = [bool(probe.load_from_cache(zc)), info_fields(probe)]
             w.open("S", sim.loop.ms)
             try:
-                if sc.get("via") == "get_service_info":
+                if sc.get("via") in ("get_service_info", "aio_get_service_info"):
                     # through Zeroconf.async_get_service_info, which builds the info object itself: hand it ours
                     import zeroconf._core as core
 
                     o_cls = core.AsyncServiceInfo
                     core.AsyncServiceInfo = lambda t, n: info if (t, n) == (TYPE_, sc.get("name", NAME)) else o_cls(t, n)
                     try:
-                        r = await zc.async_get_service_info(TYPE_, sc.get("name", NAME), sc["timeout"], forced)
+                        if sc["via"] == "aio_get_service_info":
+                            # the asyncio front door: AsyncZeroconf.async_get_service_info(type_, name, timeout, question_type)
+                            from zeroconf.asyncio import AsyncZeroconf
+
+                            r = await AsyncZeroconf(zc=zc).async_get_service_info(TYPE_, sc.get("name", NAME), sc["timeout"], forced)
+                        else:
+                            r = await zc.async_get_service_info(TYPE_, sc.get("name", NAME), sc["timeout"], forced)
                     finally:
                         core.AsyncServiceInfo = o_cls
                     obs["entry_object_ok"] = r is None or r is info
@@ -550,6 +564,14 @@ def oracle(sc, obs):
     elif sc.get("liveness") and obs["result"] is not True:
         out.append(("C18:responder-not-heard", "a responder owning the instance answered every question within %d ms, "
                     "yet the lookup failed at its timeout of %d ms" % (sc["responder"]["delay"], timeout)))
+    if obs.get("lfc") is not None:
+        # `ServiceInfo.load_from_cache(zc)` (public, `now` defaulted) at the very instant the lookup started is the lookup's own first step:
+        # it is complete iff the lookup answered from the cache, with the same fields
+        ok0, f0 = obs["lfc"]
+        s0_ = blocks[0]
+        if ok0 != (s0_["ret"] is True) or (ok0 and any(f0[k] != s0_["fields"][k] for k in ("server", "port", "priority", "weight", "text", "v4", "v6"))):
+            out.append(("C18:load-from-cache-public", "ServiceInfo.load_from_cache(zc) at the start of the lookup returned %s with %s/%s %s; the lookup's own cache load gave %s with %s/%s %s"
+                        % (ok0, f0["server"], f0["port"], f0["v4"] + f0["v6"], s0_["ret"] is True, s0_["fields"]["server"], s0_["fields"]["port"], s0_["fields"]["v4"] + s0_["fields"]["v6"])))
     if obs.get("errors"):
         out.append(("C18:exception", "exception in the event loop: %s" % obs["errors"][0]))
     if obs.get("entry_object_ok") is False:
@@ -573,7 +595,7 @@ def gen_scenario(rng, idx):
         if i >= 1 or False:
             delay = 999
     sc = {"timeout": timeout, "forced": rng.choice([0, 0, 0, 1, 2]), "draws": draws, "simseed": rng.randint(0, 10**6),
-          "via": "get_service_info" if rng.random() < 0.15 else None,
+          "via": rng.choice(["get_service_info", "aio_get_service_info"]) if rng.random() < 0.2 else None,
           "maxdelay": rng.choice([0, 0, 3, 20]), "warmup": rng.choice([0, 0, 137, 9990, 9999]), "pre": [], "events": [], "prehist": []}
 
     def age_for(ttl):
@@ -603,7 +625,7 @@ def gen_scenario(rng, idx):
         return {"k": "aaaa" if v6 else "a", "name": rng.choice(HOST_SPELLINGS[host]), "ttl": ttl(),
                 "addr": pool[rng.randrange(len(pool)) if i is None else i % len(pool)], "unique": rng.random() < 0.8}
 
-    host = rng.choice(HOSTS)
+    host = pick_host(rng)
     other = [h for h in HOSTS if h != host][0]
     if sc["via"] is None and rng.random() < 0.08:
         sc["server"] = rng.choice(HOST_SPELLINGS[rng.choice([host, host, other])] + [host.upper()])
@@ -726,7 +748,7 @@ def v6_scope(rng, sc):
 def gen_responder_scenario(rng, idx):
     """a responder owns the instance; the cache holds old copies of *its* records (same rdata) in chosen states --
     stale or expired-but-unpurged SRV/TXT with no fresh copy in particular; nothing else arrives"""
-    host = rng.choice(HOSTS)
+    host = pick_host(rng)
     rsp = {"host": host, "port": rng.choice([80, 8080]), "prio": 0, "weight": 0, "text": rng.choice(["03613d30", "", "03613d31"]),
            "a": rng.sample(V4, rng.randint(0, 2)), "aaaa": [], "ttl": rng.choice([120, 120, 4500, 10]), "delay": rng.choice([0, 1, 7, 20, 50]),
            "extra": rng.choice([None, None, "srv-first", "addr-first"])}
@@ -736,7 +758,7 @@ def gen_responder_scenario(rng, idx):
     sc = {"timeout": timeout, "forced": rng.choice([0, 0, 0, 1, 2]), "draws": [rng.choice([20, 120, rng.randint(20, 120)]) for _ in range(12)],
           "simseed": rng.randint(0, 10**6), "maxdelay": rng.choice([0, 0, 3]), "warmup": rng.choice([0, 0, 137, 9000]),
           "pre": [], "events": [], "prehist": [], "responder": rsp, "liveness": True,
-          "via": "get_service_info" if rng.random() < 0.15 else None}
+          "via": rng.choice(["get_service_info", "aio_get_service_info"]) if rng.random() < 0.2 else None}
 
     def age_state(ttl, states):
         st = rng.choice(states)
@@ -781,7 +803,7 @@ def gen_history_scenario(rng, idx):
     SAME record is received more than once: re-announced with another TTL, flushed and re-announced, or repeated byte-identically in a
     steady stream.  `truth` is what RFC 6762 section 10 says the cache holds when the lookup starts -- a record's life starts at its
     last sighting, with that sighting's TTL -- written down by the generator, independent of what the cache claims."""
-    host = rng.choice(HOSTS)
+    host = pick_host(rng)
     sc = {"timeout": rng.choice([300, 500, 1000]), "forced": 0, "draws": [rng.choice([20, 120]) for _ in range(12)], "simseed": rng.randint(0, 10**6),
           "maxdelay": 0, "warmup": 0, "pre": [], "events": [], "prehist": [], "preevents": [], "via": None}
     fam = rng.choice(["ttl-change", "ttl-change", "flush-reannounce", "stream", "stream"])
